@@ -49,8 +49,9 @@ def part_pipeline(ctx):
     """whole pipelines with n_iter / epsilon: recorded matrices decided by Trace_EM.tla"""
     rng = random.Random(ctx.seed + 3)
     jobs = []
-    fams = ["token", "timed", "multi", "ngram"]
-    for k in range(ctx.pick(60, 600)):
+    fams = ["token", "token", "timed", "timed", "multi", "ngram"]
+    KW = {"flat": [1, 1, 1], "harmonic": [2, 1], "geometric": [4, 2, 1]}
+    for k in range(ctx.pick(100, 900)):
         fam = rng.choice(fams)
         V = 3
         nd = rng.randint(1, 3)
@@ -60,9 +61,10 @@ def part_pipeline(ctx):
             corpus = [[rng.randrange(V) for _ in range(rng.randint(2 if fam == "ngram" else 1, 7))] for _ in range(nd)]
             if fam == "ngram" and not any(len(d) >= 2 for d in corpus):
                 continue
+        kern = rng.choice(["flat", "flat", "geometric", "harmonic"]) if fam == "token" else rng.choice(["flat", "geometric"]) if fam == "timed" else "flat"
         jobs.append(dict(family=fam, corpus=corpus, V=V, n_iter=rng.choice([1, 2, 3]), eps=rng.choice([0, 0, 0.05, 0.2, 0.5]),
-                         r=rng.randint(1, 3), wnorm=rng.random() < 0.7, N=2,
-                         extra=dict(n_threads=rng.choice([1, 1, 3]))))
+                         r=rng.randint(1, 2 if kern == "harmonic" else 3), wnorm=rng.random() < 0.7, N=2, kernel=kern,
+                         extra=dict(n_threads=rng.choice([1, 2, 3]))))
     res = pool_map("em", "pipeline", jobs, min_chunk=4, timeout=3000)
     recs, owners = [], []
     for j, r in zip(jobs, res):
@@ -98,6 +100,42 @@ def part_pipeline(ctx):
             ctx.nontriv(ident)
     if owners:
         ctx.sample({"part": "pipeline", "run": owners[0][1]})
+    # the iteration itself: consecutive recorded matrices are related by the documented step (interval arithmetic in TLC)
+    chain, cown = [], []
+    for j, r in zip(jobs, res):
+        if j["family"] in ("token", "timed") and r and "codes" in r and r.get("finite"):
+            chain.append({"V": j["V"], "r": j["r"], "eps": int(round(j["eps"] * 10 ** 6)), "corpus": j["corpus"], "mats": r["codes"],
+                          "kw": KW[j["kernel"]]})
+            cown.append(j)
+    tmp = tempfile.mkdtemp(prefix="verif_tr_")
+    try:
+        path = os.path.join(tmp, "t.json")
+        with open(path, "w") as f:
+            json.dump(chain, f)
+        r = tlc.run_tlc("Trace_EMChain", {}, spec="Spec", invariants=["Verdict"], workers=1, env={"TRACE_FILE": path}, timeout=3000, heap="6g")
+    finally:
+        shutil.rmtree(tmp, ignore_errors=True)
+    ctx.add_tlc(r, "Trace_EMChain on %d recorded token/timed pipelines" % len(chain))
+    verdicts = {int(p["verdict"]): p for p in r.prints if "verdict" in p}
+    if len(verdicts) != len(chain):
+        raise MachineryError("Trace_EMChain returned %d verdicts for %d runs\n%s" % (len(verdicts), len(chain), r.raw[-1500:]))
+    widths = []
+    for t, j in enumerate(cown, 1):
+        v = verdicts[t]
+        ctx.evaluations += 1
+        widths.append(int(v["width"]))
+        if v["bad"]:
+            k, a, c, m, lo, hi = [int(x) for x in v["bad"]]
+            ctx.violation({"part": "chain", "family": j["family"], "kernel": j["kernel"], "corpus": j["corpus"], "n_iter": j["n_iter"], "eps": j["eps"], "r": j["r"],
+                           "n_threads": j["extra"]["n_threads"], "kind": "matrix after iteration %d is not the documented step of the matrix before" % k},
+                          {"job": j, "recorded": chain[t - 1], "first_bad": {"iteration": k, "row": a, "col": c, "recorded_code": m, "box": [lo, hi]}})
+        else:
+            ctx.traces += 1
+            ctx.count("chains_accepted")
+    if widths:
+        widths.sort()
+        ctx.log("chain box widths (1e-6 units): median %d, 90%% %d, max %d" % (widths[len(widths) // 2], widths[int(len(widths) * 0.9)], widths[-1]))
+        ctx.assumptions.append("Trace_EMChain boxes: median width %d, max %d (1e-6 units)" % (widths[len(widths) // 2], widths[-1]))
 
 
 def part_thresh(ctx):
